@@ -52,6 +52,7 @@ CONSTANTS Ts,         \* set of history lengths T explored
           Variant,    \* "intended" | "NoLogZ" | "NoMixW" | "MixT" | "MeanT" | "MaxNorm" | "StaleMix"
           Reuse,      \* TRUE: the object is reused (Replace / Commit after a completed query, at most twice)
           ReplMod,    \* Replace installs the histories with Hash % ReplMod = 0
+          RepMax,     \* ReplicateInvariant is checked for R \in 2..RepMax
           SampleMod,  \* keep only histories with (Hash + SampleSalt) % SampleMod = 0  (1 = keep all)
           BatchMod,   \* build histories only from batches with (BHash + SampleSalt) % BatchMod = 0  (1 = all)
           SampleSalt  \* derived from VERIF_SEED
@@ -385,6 +386,29 @@ SplitInvariant ==
             LET h2 == SplitHist(hist, t, j)
             IN  /\ NormW(h2, bf) = W
                 /\ Evid(h2, bf)  = z
+
+\* size: storing every sample of every batch R times (n_t -> R n_t, N -> R N) leaves the mixture weights
+\* n_t/N, hence every unnormalised weight and Z, unchanged and divides every normalised weight by R.
+\* (The binding uses it with R ~ 10^6 to reach histories of 10^7 sample-by-iteration entries.)
+RECURSIVE RepSeqTo(_, _, _)            \* << x[1] (R times), x[2] (R times), ... >> up to length j
+RepSeqTo(x, R, j) == IF j = 0 THEN <<>> ELSE Append(RepSeqTo(x, R, j - 1), x[(j - 1) \div R + 1])
+RepSeq(x, R) == RepSeqTo(x, R, R * Len(x))
+
+RECURSIVE RepHistTo(_, _, _)
+RepHistTo(h, R, t) ==
+    IF t = 0 THEN <<>>
+    ELSE Append(RepHistTo(h, R, t - 1),
+                [n |-> R * h[t].n, b |-> h[t].b, m |-> h[t].m, ks |-> RepSeq(h[t].ks, R)])
+ReplicateHist(h, R) == RepHistTo(h, R, Len(h))
+
+ReplicateInvariant ==
+    Done =>
+        \A R \in 2..RepMax :
+            LET h2 == ReplicateHist(hist, R)
+                uw == UnnormW(h2, bf)
+            IN  /\ uw = RepSeq(w, R)
+                /\ EvidFrom(h2, uw) = z
+                /\ NormFrom(uw) = RepSeq(QScaleTo(W, QInt(R), Len(W)), R)
 
 \* T = 1 degenerates to self-normalised importance sampling from the tempered batch:
 \*   w_s = 2^m 2^((bf-b)k_s/2),  W_s proportional to 2^((bf-b)k_s/2),  Z = 2^m * mean_s 2^((bf-b)k_s/2)
